@@ -311,6 +311,76 @@ Proof.
     apply (IH (pre ++ [k]) c2 c1); [rewrite <- app_assoc; exact Hk | exact Hi2 | exact Ok2 | exact H].
 Qed.
 
+(* ---------------------------------------------------------------- no 'Multiple assignments' at this level *)
+Lemma lst_loop_err nid a is_ref : forall ks c,
+  lst_loop pn (is_sep_of g nid) a is_ref ks (Some c) = BErr ESem ->
+  exists k c', In k ks /\ pn k (Some c') = BErr ESem.
+Proof.
+  induction ks as [|k ks IH]; intros c H; cbn [lst_loop] in H; [discriminate|].
+  destruct (is_sep_of g nid k).
+  - destruct (IH _ H) as [k1 [c' [Hin He]]]. exists k1, c'. split; [right; exact Hin | exact He].
+  - destruct (pn k (Some c)) as [[v top1]|er] eqn:E.
+    + destruct is_ref; [discriminate|]. destruct top1 as [c1|]; [|discriminate].
+      destruct (get_val a (c_vals c1)) as [[]|]; try discriminate;
+        (destruct (IH _ H) as [k1 [c' [Hin He]]]; exists k1, c'; split; [right; exact Hin | exact He]).
+    + inversion H; subst er. exists k, c. split; [left; reflexivity | exact E].
+Qed.
+
+(* a semantic error while the children of the rule's NonTerminal are processed comes from converting a child
+   (a nested object), never from the multiple-assignment guard of this object's own assignments *)
+Lemma step_err pre k suf c :
+  kids = pre ++ k :: suf -> inv pre c -> kid_okb mm k = true ->
+  pn k (Some c) = BErr ESem ->
+  pure k = true \/ exists nid ks a o k0 c', k = NT nid ks /\ info mm nid = IAsgn a o /\ In k0 ks /\ pn k0 (Some c') = BErr ESem.
+Proof.
+  intros Hk [Hm Hv] Hok H.
+  destruct k as [n p len s|nid ks]; [left; reflexivity|].
+  cbn [kid_okb] in Hok. destruct (info mm nid) as [a o|kk cls at'|r gr|] eqn:Ei; try (left; exact Hok).
+  right. cbn [pnode] in H. rewrite Ei in H.
+  destruct (find_attr a (c_meta c)) as [ma|] eqn:Ef; [|discriminate]. rewrite Hm in Ef.
+  pose proof (find_attr_name _ _ _ Ef) as Hn. assert (Hma : find_attr (a_name ma) attrs = Some ma) by (rewrite Hn; exact Ef).
+  destruct (asg_kid_event nid ks a o Ei) as [op [vals [Hfit Hev]]].
+  assert (Hw : wgt (attr_id a) kids = wgt (attr_id a) pre + wgt (attr_id a) [NT nid ks] + wgt (attr_id a) suf)
+    by (rewrite Hk, wgt_app, wgt_cons; lia).
+  assert (Hwk : wgt (attr_id a) [NT nid ks] = match op with MultBase.OpPlain | MultBase.OpBool => 1 | _ => 2 end).
+  { unfold wgt. cbn [flat_map]. rewrite app_nil_r, Hev. unfold Mult.weight, Mult.ev_weight. cbn. rewrite Nat.eqb_refl.
+    destruct op; reflexivity. }
+  pose proof (Hv ma Hma) as Hcur. rewrite Hn in Hcur.
+  destruct o; try discriminate.
+  - (* = : the guard does not fire *)
+    rewrite Hcur in H.
+    assert (Hguard : (val_truthy (expv ma (tv a pre)) && negb (is_vlist (expv ma (tv a pre))))%bool = false).
+    { unfold expected_val. destruct (is_many (a_mult ma)) eqn:Emany; [cbn; apply andb_false_r|].
+      pose proof (Hscalar ma Hma Emany) as Hle. rewrite Hn in Hle.
+      rewrite (wgt0_tvals a pre) by (destruct op; lia). rewrite (init_falsy ma Emany). reflexivity. }
+    rewrite Hguard in H.
+    destruct ks as [|k0 ks']; [discriminate|].
+    destruct (pn k0 (Some c)) as [[v0 top0]|er] eqn:E0.
+    + destruct (a_ref ma && negb (a_cont ma))%bool; [discriminate|]. destruct top0; [|discriminate].
+      destruct (expv ma (tv a pre)); discriminate.
+    + inversion H; subst er. exists nid, (k0 :: ks'), a, OpPlain, k0, c. split; [reflexivity|]. split; [exact Ei|]. split; [left; reflexivity | exact E0].
+  - (* *= += *)
+    destruct (lst_loop pn (is_sep_of g nid) a (a_ref ma && negb (a_cont ma))%bool ks (Some c)) as [t1|er] eqn:El; [discriminate|].
+    inversion H; subst er. destruct (lst_loop_err _ _ _ _ _ El) as [k0 [c' [Hin He]]].
+    exists nid, ks, a, OpList, k0, c'. split; [reflexivity|]. split; [exact Ei|]. split; assumption.
+Qed.
+
+Lemma each_err : forall suf pre c,
+  kids = pre ++ suf -> inv pre c -> forallb (kid_okb mm) suf = true ->
+  each_loop pn suf (Some c) = BErr ESem ->
+  exists k c', In k suf /\ pn k (Some c') = BErr ESem /\
+    (pure k = true \/ exists nid ks a o k0 c'', k = NT nid ks /\ info mm nid = IAsgn a o /\ In k0 ks /\ pn k0 (Some c'') = BErr ESem).
+Proof.
+  induction suf as [|k suf IH]; intros pre c Hk Hi Hok H; cbn [each_loop] in H; [discriminate|].
+  cbn [forallb] in Hok. apply andb_true_iff in Hok as [Ok1 Ok2].
+  destruct (pn k (Some c)) as [[v top1]|er] eqn:E.
+  - destruct (step pre k suf c v top1 Hk Hi Ok1 E) as [c2 [-> Hi2]].
+    destruct (IH (pre ++ [k]) c2 (eq_trans Hk (app_assoc pre [k] suf)) Hi2 Ok2 H) as [k1 [c' [Hin R]]].
+    exists k1, c'. split; [right; exact Hin | exact R].
+  - inversion H; subst er. exists k, c. split; [left; reflexivity|]. split; [exact E|].
+    exact (step_err pre k suf c Hk Hi Ok1 E).
+Qed.
+
 Hypothesis Hnames : forall ma, find_attr (a_name ma) attrs = Some ma ->
   get_val (a_name ma) (init_attrs auto attrs) = Some (init_attr auto ma).
 
@@ -334,6 +404,24 @@ Proof.
   destruct (name_ok (c_vals c1)); [|discriminate]. destruct (many_ok (c_meta c1) (c_vals c1)); [|discriminate].
   inversion H; subst.
   destruct (each_inv kids [] _ c1 eq_refl (inv_init _ _ _) Hok E) as [_ Hv]. apply Hv, Hma.
+Qed.
+
+(* If building the object fails with a semantic error, the error was raised while a child was converted (a nested
+   object's own error) or by the name check - never by 'Multiple assignments' on this object's attributes. *)
+Theorem object_no_mult_assign n cls top :
+  info mm n = IRule RCommon cls attrs ->
+  forallb (kid_okb mm) kids = true ->
+  pn (NT n kids) top = BErr ESem ->
+  (exists k c', In k kids /\ pn k (Some c') = BErr ESem /\
+     (pure k = true \/ exists nid ks a o k0 c'', k = NT nid ks /\ info mm nid = IAsgn a o /\ In k0 ks /\ pn k0 (Some c'') = BErr ESem))
+  \/ (exists c1, each_loop pn kids (Some (mkCur cls attrs (tpos (NT n kids)) (tend (NT n kids)) (init_attrs auto attrs))) = BOk (Some c1)
+                 /\ name_ok (c_vals c1) = false).
+Proof.
+  intros Hi Hok H. cbn [pnode] in H. rewrite Hi in H.
+  destruct (each_loop pn kids _) as [[c1|]|er] eqn:E; try discriminate.
+  - right. exists c1. split; [reflexivity|]. destruct (name_ok (c_vals c1)); [|reflexivity].
+    destruct (many_ok (c_meta c1) (c_vals c1)); discriminate.
+  - left. inversion H; subst er. exact (each_err kids [] _ eq_refl (inv_init _ _ _) Hok E).
 Qed.
 
 End Proj.
